@@ -150,6 +150,19 @@ def handle (line : String) : String :=
     match d.toNat? with
     | some d => " | ".intercalate (runResource (Res.init d) true (if evs == "-" then [] else evs.splitOn ",") [showRes (Res.init d) true])
     | none => "bad-op"
+  -- a subscriber of is_loading moves an odd dependency value on to the next one while the load is being
+  -- announced, i.e. before the fetch function reads it: a write of an odd `v` is a write of `v + 1`
+  | "resourcefl" :: d :: evs :: [] =>
+    match d.toNat? with
+    | some d =>
+      let evl := (if evs == "-" then [] else evs.splitOn ",").map fun e =>
+        if e.startsWith "w" then
+          match (e.drop 1).toString.toNat? with
+          | some v => if v % 2 == 1 then s!"w{v + 1}" else e
+          | none => e
+        else e
+      " | ".intercalate (runResource (Res.init d) true evl [showRes (Res.init d) true])
+    | none => "bad-op"
   | "resourcefb" :: d :: c :: evs :: [] =>
     match d.toNat?, c.toNat? with
     | some d, some c =>
